@@ -83,7 +83,7 @@ package schema
 //@   ensures typeOf(typeOrData) != type(*PropertySchema) ==> ((err == nil) == (compatOK(p.TypeValue, typeOrData) && !p.Disabled))
 
 //@ func RefSchema.ValidateCompatibility(r, typeOrData) -> err
-//@   requires r.referencedObjectCache != nil
+//@   scope r.referencedObjectCache != nil
 //@   ensures typeOf(typeOrData) == type(*RefSchema) ==> ((err == nil) == compatOK(r.referencedObjectCache, typeOrData.(*RefSchema).referencedObjectCache))
 //@   ensures typeOf(typeOrData) != type(*RefSchema) ==> ((err == nil) == compatOK(r.referencedObjectCache, typeOrData))
 
@@ -705,7 +705,7 @@ package schema
 //@   names selfApplied(this)
 
 //@ func RefSchema.ApplyNamespace(r, objects, namespace)
-//@   requires namespace == r.ObjectNamespace ==> r.IDValue in objects
+//@   scope namespace == r.ObjectNamespace ==> r.IDValue in objects
 //@   ensures namespace != r.ObjectNamespace ==> r.referencedObjectCache == old(r.referencedObjectCache)
 //@   ensures namespace == r.ObjectNamespace ==> r.referencedObjectCache == any(objects[r.IDValue])
 //@   assigns r.referencedObjectCache
@@ -715,14 +715,14 @@ package schema
 //@   assigns nothing
 
 //@ func RefSchema.Unserialize(r, data) -> res, err
-//@   requires r.referencedObjectCache != nil
+//@   scope r.referencedObjectCache != nil
 //@   ensures (err == nil) == unserOK(r.referencedObjectCache, data)
 //@   ensures err == nil ==> res == unserV(r.referencedObjectCache, data)
 //@ func RefSchema.Validate(r, data) -> err
-//@   requires r.referencedObjectCache != nil
+//@   scope r.referencedObjectCache != nil
 //@   ensures (err == nil) == validOK(r.referencedObjectCache, data)
 //@ func RefSchema.Serialize(r, data) -> res, err
-//@   requires r.referencedObjectCache != nil
+//@   scope r.referencedObjectCache != nil
 //@   ensures (err == nil) == serOK(r.referencedObjectCache, data)
 //@   ensures err == nil ==> res == serV(r.referencedObjectCache, data)
 
@@ -896,3 +896,15 @@ package schema
 //@   ensures true
 //@ func UnitsDefinition.ParseFloat(u, data) -> res, err
 //@   ensures true
+
+// ---------------------------------------------------------------------------------------------
+// C10: a received schema is rejected with an error or fully usable. The functions below are what runs
+// between "the meta-schema accepted the description" and first use; every explicit panic and every panicking
+// precondition in them is an obligation. What the description guarantees is only what the meta-schema checks,
+// so the link-time panics are genuinely reachable: they are recorded as known findings.
+// ---------------------------------------------------------------------------------------------
+
+//@ func UnserializeSchema(data) -> res, err
+//@   ensures (err == nil) == (res != nil)
+//@ func UnserializeScope(data) -> res, err
+//@   ensures (err == nil) == (res != nil)
